@@ -550,6 +550,11 @@ def _floor_reader(ctx: Ctx, fi: FuncInfo, s: Summary) -> Tuple[List[str], Option
     if rv is None:
         return ["nothing is returned"], None
     rv = unalias(T.strip(rv), s, fi)
+    # an exact hit answered first (`if time in outputs: return outputs[time]`) is the floor entry, too
+    no_hit = None
+    while rv[0] in ("phi", "ifexp") and T.strip(rv[1]) == ("cmp", "in", t, outs) and T.strip(rv[2]) == ("idx", outs, t):
+        rv = T.strip(rv[3])
+        no_hit = ("cmp", "in", t, outs)          # ... and is known not to be there in what follows
     # form 1: a first-match scan
     hit = [r for r in s.returns if r.iters]
     nxt = [x for x in T.subterms((rv,)) if x[0] == "call" and x[1] == T.glob("next") and x[2] and T.strip(x[2][0])[0] == "bag"]
@@ -622,12 +627,14 @@ def _floor_reader(ctx: Ctx, fi: FuncInfo, s: Summary) -> Tuple[List[str], Option
     FK = T.var("§floor-key")
     try:
         # no entry old enough: the search yields its default
-        none_case = T.strip(boolfn.resolve_phi(T.replace(rv, {M: default}), {}, lambda x: constfold.decide(x, {})))
+        none_case = T.strip(boolfn.resolve_phi(T.replace(rv, {M: default}), {}, lambda x: (not boolfn.canon_leaf(x)[1]) if (no_hit is not None and boolfn.canon_leaf(x)[0] == no_hit) else constfold.decide(x, {})))
         if none_case != ("dict", ()) and not (none_case[0] == "call" and none_case[1] == T.glob("dict") and not none_case[2]):
             pr.append(f"returns {T.show(none_case)[:50]} instead of {{}} when nothing is old enough")
         # some entry: the search yields the floor key (not None)
         def truthy(x):
             x = T.strip(x)
+            if no_hit is not None and boolfn.canon_leaf(x)[0] == no_hit:
+                return not boolfn.canon_leaf(x)[1]
             if x[0] == "cmp" and x[1] in ("is", "isnot") and FK in (x[2], x[3]) and T.NONE in (x[2], x[3]):
                 return x[1] == "isnot"
             if x[0] == "cmp" and x[1] in ("==", "!=") and FK in (x[2], x[3]) and T.NONE in (x[2], x[3]):
